@@ -489,7 +489,7 @@ func main() {
 			"Close is called after every inserting goroutine returned; the race detector only sees interleavings that actually occurred",
 		},
 		Plan: func(tier string, seed int64) []kit.Batch {
-			nseq, ncon, n, nc := 8, 8, 28, 10
+			nseq, ncon, n, nc := 8, 8, 20, 8
 			if tier == "thorough" {
 				nseq, ncon, n, nc = 24, 24, 800, 250
 			}
